@@ -96,7 +96,7 @@ func init() {
 			c.Tag("sam-form")
 			return c
 		}
-		c := genVarCase(r, id, varOpts{fmtWeights: [2]int{1, 2}, withIns: r.Chance(1, 3), gffShapes: true, allowPhase: true, maxGenes: 6, sameName: true})
+		c := genVarCase(r, id, varOpts{fmtWeights: [2]int{1, 2}, withIns: r.Chance(1, 3), gffShapes: true, allowPhase: true, maxGenes: 6, sameName: true, sameNameLoci: true})
 		c.Set("focus", "nucaa") // C04 speaks about nuc: and aa: records; ins:/del: belong to C05
 		return c
 	}
